@@ -24,11 +24,13 @@ LIBS = ["-ldl", "-lpthread"]
 MC_RUNS = [("prebuilt", None), ("native_ids", None), ("reach", "NeverJoined"),
            ("ondemand", "RaceFree"), ("ondemand_cons", None), ("ondemand_out", "OutputsSequential"),
            ("sentinel", "RaceFree"), ("sentinel_cons", None),
-           ("poolunlocked", "RaceFree"), ("poolunlocked_cons", None)]
+           ("poolunlocked", "RaceFree"), ("poolunlocked_cons", None),
+           ("staticscratch", "RaceFree"), ("staticscratch_out", "OutputsSequential"), ("staticscratch_cons", None)]
 
 # (kind, schedule).  xerces-parse = XalanTransformer::parseSource(..., useXercesDOM=true): outside the property's
 # "thread-safe mode" quantifier (DESIGN 7 #9); its threads run one after the other because running them concurrently
 # crashes the process (the unsynchronised string pool) - the stores are trapped all the same.
+SCRATCH_FAMILY = ["14-number-formats.xsl", "15-scratch-users.xsl"]
 KINDS = [("native", "concurrent"), ("xerces-wrapper", "concurrent"), ("xerces-parse", "serial")]
 
 # classes that only carry data for their owner: a store inside them belongs to the first function outside of them
@@ -53,7 +55,8 @@ def owner(ev):
 
 
 def key_of(kind, ev):
-    return "%s:%s" % (kind, owner(ev))
+    """stores into the library's static data are shared by every thread whatever the source kind: kind "static" """
+    return "%s:%s" % ("static" if ev.get("region") == "static" else kind, owner(ev))
 
 
 # --------------------------------------------------------------------------------------------- corpus
@@ -123,7 +126,8 @@ def facilities(path):
     for name, pat in (("key", r"xsl:key|key\("), ("number", r"xsl:number"), ("document", r"document\("), ("format-number", r"format-number|decimal-format"),
                       ("sort-lang", r"xsl:sort[^>]*lang="), ("id", r"\bid\("), ("rtf", r"xalan:nodeset|exsl:node-set"), ("exslt", r"set:|math:|str:|dyn:"),
                       ("strip-space", r"xsl:strip-space"), ("attribute-set", r"attribute-set"), ("call-template", r"call-template"),
-                      ("copy-of", r"xsl:copy-of"), ("import", r"xsl:import|xsl:include")):
+                      ("copy-of", r"xsl:copy-of"), ("import", r"xsl:import|xsl:include"),
+                      ("number-formats", r'format="(a|A|i|I|0+1)"'), ("generate-id", r"generate-id\(")):
         if re.search(pat, t):
             fs.append(name)
     return fs
@@ -215,6 +219,10 @@ def run(res, tier, seed):
                 srcs = rnd.sample(srcs, 2 if len(srcs) > 2 else 1)
             for xml in srcs:
                 cases.append((kind, sched, xsl, xml, threads, iters))
+    # per-call scratch users over a 1200-item source, natively and with real concurrency: a race on scratch state that
+    # lives where no store is trapped still changes some of the 24 (quick) / 96 (thorough) outputs
+    for xsl in SCRATCH_FAMILY:
+        cases.append(("native", "concurrent", xsl, "large.xml") + ((8, 3) if quick else (16, 6)))
     exe = vlib.build_harness("c07", libs=LIBS)
     workers = max(2, min(8, vlib.NCPU // (2 if quick else 4)))
     with ThreadPoolExecutor(max_workers=workers) as ex:
